@@ -75,6 +75,8 @@ def judge_model(d):
     tag = (f"{d['model']} T={T} K={K} rots={d['rots']['kind']} planted (j={j}, k={k}, d={np.round(disp, 3).tolist()}) "
            f"shape={shape} max_shifts={ms}")
     mask = union_mask(d["blobsets"], shape, float(np.abs(disp).max()) + 0.8) if d.get("mask") else None
+    if mask is not None and d.get("mask_dtype", "float32") != "float32":
+        mask = mask.astype(d["mask_dtype"])  # a binary mask handed over as a bool / uint8 array
     stol = 0.5 if mask is not None else 0.15
     tag += f" mask={'union-of-balls' if mask is not None else 'none'}"
     with warnings.catch_warnings():
@@ -313,7 +315,7 @@ def model_cases(draw):
     rmax = (min(shape) - 1) / 2 - max(ms) - 0.5
     blobsets = [draw(planted.blob_offsets(rmax, variant=v)) for v in range(T)]
     return {"model": model, "shape": shape, "max_shifts": ms, "rots": rots, "blobsets": blobsets,
-            "equal_energy": draw(st.booleans()), "mask": draw(st.sampled_from([False, False, True])),
+            "equal_energy": draw(st.booleans()), "mask": draw(st.sampled_from([False, False, True])), "mask_dtype": draw(st.sampled_from(["float32", "float32", "bool", "uint8"])),
             "j": draw(st.integers(0, 5)), "k": draw(st.integers(1, 40)),
             "d": [round(draw(st.floats(-0.9 * m, 0.9 * m)), 3) for m in ms],
             "optimality": draw(st.sampled_from([False, False, True])),
@@ -370,7 +372,7 @@ def labels_model(d):
     K, T = nk(d), len(d["blobsets"])
     return gen.parity_class(d["shape"]) + [f"model:{d['model']}", f"T:{T}", f"K:{K}", f"TK:{T}x{K}", f"rots:{d['rots']['kind']}",
                                            "equal-energy" if d["equal_energy"] else "unequal-energy",
-                                           "optimality-checked" if d["optimality"] and T * K <= 9 else "optimality-skipped", "masked" if d.get("mask") else "unmasked"]
+                                           "optimality-checked" if d["optimality"] and T * K <= 9 else "optimality-skipped", ("masked:" + d.get("mask_dtype", "float32")) if d.get("mask") else "unmasked"]
 
 
 def labels_loader(d):
